@@ -687,7 +687,8 @@ def intersect_case(draw):
     else:
         Ss = None
     return dict(n=n, k1=k1, k2=k2, mode=mode, s1=s1, s2=s2, S=S, Ss=Ss, GA=GA, GB=GB,
-                XA=XA, YB=YB, tilt=tilt, other_as_array=draw(st.booleans()))
+                XA=XA, YB=YB, tilt=tilt, other_as_array=draw(st.booleans()),
+                rowlen=draw(st.integers(0, 3)) == 0)
 
 
 def body_intersect(case, ctx):
@@ -708,6 +709,15 @@ def body_intersect(case, ctx):
         F = Ss[t] if Ss else S
         Y = np.array(case["YB"][t], dtype=float).reshape(k2, N - k2)
         B[t] = np.array(case["GB"][t], dtype=float) @ (F[N - k2:] + Y @ F[:N - k2])
+    if case.get("rowlen"):
+        # spanning vectors of very different lengths (a subspace is its span, whatever the
+        # lengths of the vectors it is given by)
+        fA = np.array([[1.0, 2500.0, 0.04, 60.0, 1.0, 700.0][(t + r) % 6] for t in range(c1)
+                       for r in range(k1)]).reshape(c1, k1, 1)
+        fB = np.array([[0.02, 1.0, 4000.0, 1.0, 30.0, 0.5][(t + r) % 6] for t in range(c2)
+                       for r in range(k2)]).reshape(c2, k2, 1)
+        A, B = A * fA, B * fB
+        ctx.label("spanning-vectors-of-different-lengths")
     A = A.reshape(s1 + (k1, N))
     B = B.reshape(s2 + (k2, N))
     _labels(ctx, n, s1)
@@ -719,6 +729,18 @@ def body_intersect(case, ctx):
     if Ss:
         ctx.label("frame-per-element")
     ctx.label("tilted" if case["tilt"] else "coordinate-subspaces")
+    # coordinate subspaces given by whole-number vectors in integer-typed arrays: span(e_0..
+    # e_{k1-1}) meets span(e_{N-k2}..e_{N-1}) in span(e_{N-k2}..e_{k1-1})
+    Ri = projective.Subspace(np.eye(N, dtype=np.int64)[:k1] * 2).intersect(
+        projective.Subspace(np.eye(N, dtype=np.int64)[N - k2:] * 3))
+    Di = np.asarray(Ri.proj_data, dtype=float)
+    ctx.check(Di.shape == (d, N), "intersection of integer-typed coordinate subspaces: shape",
+              got=Di.shape, want=(d, N))
+    outside = np.ones(N, dtype=bool)
+    outside[N - k2:k1] = False
+    ctx.small("intersection of integer-typed coordinate subspaces lies in both",
+              Di[:, outside], 1e-12)
+    ctx.check(np.linalg.matrix_rank(Di) == d, "... and has the expected dimension")
     SA = projective.Subspace(A.copy())
     other = B.copy() if case["other_as_array"] else projective.Subspace(B.copy())
     R = SA.intersect(other, broadcast=mode)
